@@ -21,12 +21,53 @@ type c16case struct {
 	Order  []int   `json:"order"`
 }
 
+// seat numbers used for the players: identity, or (VERIF_C16_SEATS=sparse) seats spread over a large table - the code
+// under test is given the seat numbers, the oracle below keeps talking about player i
+var c16seats = []int{0, 3, 8, 9, 17, 30}
+
 func c16oracle(c c16case) string {
+	if msg := c16oracle1(c, false); msg != "" {
+		return msg
+	}
+	if msg := c16oracle1(c, true); msg != "" {
+		return "with the players on seats 0, 3, 8, 9, 17: " + msg
+	}
+	return ""
+}
+
+func c16oracle1(c c16case, sparse bool) string {
+	seat := func(i int) int {
+		if sparse {
+			return c16seats[i]
+		}
+		return i
+	}
 	ll := NewLevelList()
 	for _, i := range c.Order {
-		ll.AddContributor(c.Wagers[i], i, c.Folds[i])
+		ll.AddContributor(c.Wagers[i], seat(i), c.Folds[i])
 	}
 	pots := ll.GetPots()
+	if sparse {
+		// translate the published seat numbers back to player numbers
+		back := map[int]int{}
+		for i := range c.Wagers {
+			back[seat(i)] = i
+		}
+		for _, p := range pots {
+			if p == nil {
+				continue
+			}
+			m := map[int]int64{}
+			for k, v := range p.Contributors {
+				if i, ok := back[k]; ok {
+					m[i] = v
+				} else {
+					m[-1-k] = v
+				}
+			}
+			p.Contributors = m
+		}
+	}
 	var sumW int64
 	for _, w := range c.Wagers {
 		sumW += w
